@@ -1758,6 +1758,9 @@ impl<'a> AstResolver<'a> {
             }
         };
 
+        // A replacement applies to every item with that name, on the import
+        // side and on the export side alike; `used` records which ones matched.
+        let mut used = HashSet::new();
         let other = &state.graph.types()[id];
         for (name, item) in &other.imports {
             let name = replace_name(
@@ -1766,7 +1769,8 @@ impl<'a> AstResolver<'a> {
                 ty,
                 name,
                 ExternKind::Import,
-                &mut replacements,
+                &replacements,
+                &mut used,
             )?;
             ty.imports.entry(name).or_insert(*item);
         }
@@ -1778,7 +1782,8 @@ impl<'a> AstResolver<'a> {
                 ty,
                 name,
                 ExternKind::Export,
-                &mut replacements,
+                &replacements,
+                &mut used,
             )?;
             ty.exports.entry(name).or_insert(*item);
         }
@@ -1788,7 +1793,7 @@ impl<'a> AstResolver<'a> {
         if let Some(missing) = include
             .with
             .iter()
-            .find(|item| replacements.contains_key(item.from.string))
+            .find(|item| !used.contains(item.from.string))
         {
             return Err(Error::MissingWorldInclude {
                 world: include.world.name().to_owned(),
@@ -1805,7 +1810,8 @@ impl<'a> AstResolver<'a> {
             ty: &mut World,
             name: &str,
             kind: ExternKind,
-            replacements: &mut HashMap<&str, &ast::WorldIncludeItem<'a>>,
+            replacements: &HashMap<&'a str, &ast::WorldIncludeItem<'a>>,
+            used: &mut HashSet<&'a str>,
         ) -> ResolutionResult<String> {
             // Check for a id, which doesn't get replaced.
             if name.contains(':') {
@@ -1813,8 +1819,11 @@ impl<'a> AstResolver<'a> {
             }
 
             let (name, span) = replacements
-                .remove(name)
-                .map(|i| (i.to.string, i.to.span))
+                .get(name)
+                .map(|i| {
+                    used.insert(i.from.string);
+                    (i.to.string, i.to.span)
+                })
                 .unwrap_or_else(|| (name, include.world.span()));
 
             let exists = if kind == ExternKind::Import {
